@@ -17,7 +17,7 @@
 From Coq Require Import String.
 From Coq Require Import List ZArith QArith Qabs Qround Bool Floats Uint63.
 From IB Require Import Util.J Combiners.Lawful Combiners.Basic Combiners.TopK Combiners.Distinct
-  Combiners.Shapes.
+  Combiners.Shapes Combiners.ExtReal Combiners.Checked.
 Import ListNotations.
 Open Scope Z_scope.
 
@@ -123,6 +123,8 @@ Definition ozeqb (a b : option Z) : bool :=
   end.
 
 (* ------------------------------------------------------------------ outcomes *)
+Definition jstr_is (o : J) (t : string) : bool :=
+  match o with JS s => String.eqb s t | _ => false end.
 Definition dec_oz (j : J) : option (option Z) :=
   match j with JI z => Some (Some z) | JN => Some None | _ => None end.
 
@@ -131,11 +133,7 @@ Definition dec_oz (j : J) : option (option Z) :=
 Definition q_of (den : Z) (v : Z) : Q := Qmake v (Z.to_pos den).
 
 (* agree: model output on tree t vs observed outcome o *)
-Definition map_tree {X Y} (f : X -> Y) : mtree X -> mtree Y :=
-  fix go t := match t with
-              | MLeaf b p => MLeaf b (map f p)
-              | MNode l r => MNode (go l) (go r)
-              end.
+(* map_tree, map_aexpr: Combiners/Shapes.v *)
 
 Definition agree_tree (cid : Z) (k : nat) (den : Z) (t : mtree Z) (o : J) : bool :=
   if cid =? 0 then
@@ -295,13 +293,6 @@ Fixpoint dec_aexpr (fuel : nat) (j : J) : option (aexpr Z) :=
       | _ => None
       end
   end.
-Definition map_aexpr {X Y} (f : X -> Y) : aexpr X -> aexpr Y :=
-  fix go e := match e with
-              | ACreate => ACreate
-              | AAdd e v => AAdd (go e) (f v)
-              | AMerge l r => AMerge (go l) (go r)
-              | ABuild vs => ABuild (map f vs)
-              end.
 
 Definition kmv_exact_count (k : nat) (e : aexpr Z) : option Z :=
   let c := kmv_combiner (fun v : Z => v)
@@ -403,7 +394,7 @@ Definition prop_big (cid : Z) (k : nat) (den : Z) (vs : list Z) (o : J) : bool :
   if cid =? 5 then
     match o with JI z => z =? Z.of_nat (length (dedup_sorted (msort vs))) | _ => false end
   else if cid =? 6 then digest_is o (dedup_sorted (msort vs))
-  else if cid =? 7 then digest_is o (firstn k (rev (msort vs)))
+  else if cid =? 7 then digest_is o (firstn k (rev_append (msort vs) []))
   else if cid =? 8 then
     match o with
     | JL [JF t; JF f] =>
@@ -444,64 +435,84 @@ Definition big_valid (cid den ty : Z) (vs : list Z) : bool :=
       else false)
   && (if cid =? 8 then ty =? 0 else true).
 
+(* ------------------------------------------------------------------ bounded integer sums ("ovf")
+   in = [ty, expression]; ty 0 i8, 1 u8, 2 i32, 3 u32: Sum<T> with the overflow-checked `+`
+   (model: Combiners/Checked.v sum_checked_combiner, None = panic); ty 10..13: the same types inside
+   std::num::Wrapping (sum_wrapping_combiner).  out = JI sum | JS "panic". *)
+Definition ovf_range (ty : Z) : option (Z * Z) :=
+  let t := if ty <? 10 then ty else ty - 10 in
+  if t =? 0 then Some (-128, 127) else if t =? 1 then Some (0, 255)
+  else if t =? 2 then Some (- 2 ^ 31, 2 ^ 31 - 1) else if t =? 3 then Some (0, 2 ^ 32 - 1)
+  else None.
+Definition check_ovf (ty : Z) (e : aexpr Z) (o : J) : verdict :=
+  match ovf_range ty with
+  | None => malformed
+  | Some (lo, hi) =>
+      let vs := avalues e in
+      if negb (forallb (fun v => (lo <=? v) && (v <=? hi)) vs) || (ty <? 0) || (13 <? ty) then malformed
+      else
+        let s := ref_sum vs in
+        if ty <? 10 then
+          let agree := match c_finish (sum_checked_combiner lo hi) (aeval (sum_checked_combiner lo hi) e) with
+                       | Some z => match o with JI z' => z' =? z | _ => false end
+                       | None => jstr_is o "panic"
+                       end in
+          (* never a wrong number; and no panic at all when the totals fit (c06_sum_no_overflow) *)
+          let exact := match o with JI z' => z' =? s | _ => false end in
+          let fits := (lo <=? - fold_left (fun a v => a + Z.max (- v) 0) vs 0)
+                      && (fold_left (fun a v => a + Z.max v 0) vs 0 <=? hi) in
+          ok_verdict agree (if fits then exact else exact || jstr_is o "panic")
+        else
+          let md := hi - lo + 1 in
+          let c := sum_wrapping_combiner lo md in
+          let agree := match o with JI z' => z' =? c_finish c (aeval c e) | _ => false end in
+          (* the representative of the exact sum modulo 2^bits in lo..hi *)
+          let prop := match o with
+                      | JI z' => (z' =? s - md * ((s - lo) / md)) && (lo <=? z') && (z' <=? hi)
+                      | _ => false end in
+          ok_verdict agree prop
+  end.
+
 (* ------------------------------------------------------------------ non-finite floats ("fsweep")
-   FOR THE CORRESPONDENCE ONLY: the theorems are over Z / Q (finite values).  Here the sum model
-   is extended to the extended reals the way IEEE addition behaves on the generated inputs (finite
-   values are small multiples of 1/2, so finite sums are exact and never overflow):
+   The sum model is extended to the extended reals the way IEEE addition behaves on the generated
+   inputs (finite values are small multiples of 1/2, so finite sums are exact and never overflow):
    NaN is absorbing, (+inf) + (-inf) = NaN, otherwise an infinity absorbs finite values; the count
    counts every sample.  The sign of a zero result is not modelled (Rust's `Iterator::sum::<f64>`
    starts from -0.0, `0.0 + x` from +0.0, so AverageF64's lifted and unlifted accumulators of a
    group of -0.0 values differ in the sign of zero only); zeros are compared by value.
    Min/Max over OrdF64 (f64::total_cmp) reuse the Z models through an order-preserving key.
    value codes: 100 NaN, 101 +inf, 102 -inf, 103 -0.0, otherwise c stands for the double c/2. *)
-Inductive xr : Type := XNaN | XPInf | XNInf | XFin (q : Q).
-Definition xadd (a b : xr) : xr :=
-  match a, b with
-  | XNaN, _ | _, XNaN => XNaN
-  | XPInf, XNInf | XNInf, XPInf => XNaN
-  | XPInf, _ | _, XPInf => XPInf
-  | XNInf, _ | _, XNInf => XNInf
-  | XFin p, XFin q => XFin (p + q)
-  end.
-(* Sum<f64>: same shape as Basic.sum_combiner *)
-Definition xsum_combiner : combiner xr xr xr := {|
-  c_create := XFin 0;
-  c_add    := xadd;
-  c_merge  := xadd;
-  c_finish := fun a => a;
-  c_build  := fun vs => fold_left xadd vs (XFin 0)
-|}.
-(* AverageF64: same shape as Basic.average_combiner *)
-Definition xavg_finish (a : xr * Z) : xr :=
-  if snd a =? 0 then XFin 0
-  else match fst a with XFin q => XFin (q / inject_Z (snd a)) | x => x end.
-Definition xavg_combiner : combiner xr (xr * Z) xr := {|
-  c_create := (XFin 0, 0);
-  c_add    := fun a v => (xadd (fst a) v, snd a + 1);
-  c_merge  := fun a b => (xadd (fst a) (fst b), snd a + snd b);
-  c_finish := xavg_finish;
-  c_build  := fun vs => (fold_left xadd vs (XFin 0), Z.of_nat (length vs))
-|}.
+(* the extended-real models of Sum<f64> and AverageF64 are Combiners/ExtReal.v (xsum_combiner,
+   xavg_combiner, theorems c06_nonfinite_sum and c06_nonfinite_average); finite values are counted in units of 1/2 *)
 Definition code_xr (c : Z) : xr :=
   if c =? 100 then XNaN else if c =? 101 then XPInf else if c =? 102 then XNInf
-  else if c =? 103 then XFin 0 else XFin (Qmake c 2).
+  else if c =? 103 then XFin 0 else XFin c.
 (* total_cmp order: -inf < negative < -0.0 < +0.0 < positive < +inf < NaN; strictly monotone *)
 Definition code_key (c : Z) : Z :=
   if c =? 100 then 1001 else if c =? 101 then 1000 else if c =? 102 then -1000
   else if c =? 103 then -1 else 2 * c.
 
-Definition jstr_is (o : J) (t : string) : bool :=
-  match o with JS s => String.eqb s t | _ => false end.
-(* observed float outcome against an extended real; finite: nearest double (mean) or exact (sum) *)
-Definition xr_matches (nearest : bool) (x : xr) (o : J) : bool :=
+(* observed Sum<f64> outcome against an extended real: finite sums are exact *)
+Definition xr_matches (x : xr) (o : J) : bool :=
   match x with
   | XNaN => jstr_is o "nan"
   | XPInf => jstr_is o "pinf"
   | XNInf => jstr_is o "ninf"
-  | XFin q =>
+  | XFin z =>
       match o with
-      | JF f => if nearest then nearest_double f q
-                else match float_to_Q f with Some fq => Qeq_bool fq q | None => false end
+      | JF f => match float_to_Q f with Some fq => Qeq_bool fq (Qmake z 2) | None => false end
+      | _ => false
+      end
+  end.
+(* observed AverageF64 outcome: a finite mean is a double nearest to num/den (units of 1/2) *)
+Definition xmean_matches (x : xmean) (o : J) : bool :=
+  match x with
+  | MNaN => jstr_is o "nan"
+  | MPInf => jstr_is o "pinf"
+  | MNInf => jstr_is o "ninf"
+  | MFin num den =>
+      match o with
+      | JF f => (0 <? den) && nearest_double f (Qmake num (Z.to_pos (2 * den)))
       | _ => false
       end
   end.
@@ -528,8 +539,8 @@ Definition obs_key (o : J) : option (option Z) :=
 (* rows of an fsweep case: 0 AverageF64, 1 Sum<f64>, 2 Min<OrdF64>, 3 Max<OrdF64> *)
 Definition f_agree (row : nat) (t : mtree Z) (o : J) : bool :=
   match row with
-  | 0%nat => xr_matches true (c_finish xavg_combiner (meval xavg_combiner (map_tree code_xr t))) o
-  | 1%nat => xr_matches false (c_finish xsum_combiner (meval xsum_combiner (map_tree code_xr t))) o
+  | 0%nat => xmean_matches (c_finish xavg_combiner (meval xavg_combiner (map_tree code_xr t))) o
+  | 1%nat => xr_matches (c_finish xsum_combiner (meval xsum_combiner (map_tree code_xr t))) o
   | 2%nat => match obs_key o with
              | Some ok => ozeqb ok (c_finish min_combiner (meval min_combiner (map_tree code_key t)))
              | None => false end
@@ -628,6 +639,58 @@ Fixpoint f_judge_rows (row : nat) (codes : list Z) (ts : list (mtree Z)) (rows :
   end.
 Definition code_ok (c : Z) : bool := ((100 <=? c) && (c <=? 103)) || ((-1000 <? c) && (c <? 100)).
 
+
+(* ------------------------------------------------------------------ big non-finite groups ("fbig")
+   in = [g, specials, psize, mode, nest]; the value codes are gen_values g with code c written at
+   index i for each [i, c] of specials; the group is cut into chunks and merged as `chunked` says.
+   out = [AverageF64; Sum<f64>; Min<OrdF64>; Max<OrdF64>] outcomes as in "fsweep". *)
+Fixpoint set_nth (i : nat) (c : Z) (l : list Z) : option (list Z) :=
+  match l, i with
+  | [], _ => None
+  | _ :: r, O => Some (c :: r)
+  | x :: r, S i' => match set_nth i' c r with Some r' => Some (x :: r') | None => None end
+  end.
+Fixpoint apply_specials (sp : list J) (l : list Z) : option (list Z) :=
+  match sp with
+  | [] => Some l
+  | JL [JI i; JI c] :: sp' =>
+      if (i <? 0) || (c <? 100) || (103 <? c) then None
+      else match set_nth (Z.to_nat i) c l with
+           | Some l' => apply_specials sp' l'
+           | None => None
+           end
+  | _ => None
+  end.
+Definition fbig_agree (row : nat) (e : aexpr Z) (o : J) : bool :=
+  match row with
+  | 0%nat => xmean_matches (c_finish xavg_combiner (aeval xavg_combiner (map_aexpr code_xr e))) o
+  | 1%nat => xr_matches (c_finish xsum_combiner (aeval xsum_combiner (map_aexpr code_xr e))) o
+  | 2%nat => match obs_key o with
+             | Some ok => ozeqb ok (c_finish min_combiner (aeval min_combiner (map_aexpr code_key e)))
+             | None => false end
+  | _ => match obs_key o with
+         | Some ok => ozeqb ok (c_finish max_combiner (aeval max_combiner (map_aexpr code_key e)))
+         | None => false end
+  end.
+Definition check_fbig (input output : J) : verdict :=
+  match input, output with
+  | JL [g; JL sp; JI psize; JI mode; JI nest], JL [o0; o1; o2; o3] =>
+      if (psize <? 1) || (mode <? 0) || (2 <? mode) || (nest <? 0) || (2 <? nest) then malformed else
+      match dec_gen g with
+      | Some base =>
+          match apply_specials sp base with
+          | Some codes =>
+              if negb (forallb code_ok codes) then malformed else
+              let e := chunked (Z.to_nat mode) (Z.to_nat nest) (Z.to_nat psize) codes in
+              ok_verdict (fbig_agree 0 e o0 && fbig_agree 1 e o1 && fbig_agree 2 e o2 && fbig_agree 3 e o3)
+                         (f_prop 0 codes o0 && f_prop 1 codes o1 && f_prop 2 codes o2 && f_prop 3 codes o3)
+          | None => malformed
+          end
+      | None => malformed
+      end
+  | _, _ => malformed
+  end.
+
 Definition is_pow2 (d : Z) : bool := existsb (Z.eqb d) [1; 2; 4; 8; 16].
 
 Definition check_C06 (kind : string) (input output : J) : verdict :=
@@ -671,6 +734,16 @@ Definition check_C06 (kind : string) (input output : J) : verdict :=
         | Some e =>
             ok_verdict (agree_expr cid (Z.to_nat k) den e output)
                        (prop_out cid (Z.to_nat k) den (avalues e) output)
+        | None => malformed
+        end
+    | _ => malformed
+    end
+  else if String.eqb kind "fbig" then check_fbig input output
+  else if String.eqb kind "ovf" then
+    match input with
+    | JL [JI ty; je] =>
+        match dec_aexpr 1000 je with
+        | Some e => check_ovf ty e output
         | None => malformed
         end
     | _ => malformed
